@@ -218,7 +218,7 @@ PROPS["C19"] = dict(
     rule=("daemon engine (two real daemons): in every third multi-transaction scenario one acknowledged six-segment transfer is suspended through its daemon (UserPrimitive::Suspend) right after its Put and resumed 1.5 s later - oracle daemon_suspended_silent (nothing of that transaction is handed to the link in between) and completion after the Resume (C11 others_unaffected). send + recv engines (see C07/C04): about one history in nine contains suspend, time passing (0 to 30 s), timeouts, send attempts, resume; "
           "fault handlers that suspend (8:s, 1:s, 7:s) make suspension by fault frequent. Non-trivial = a PDU was emitted or an indication raised."),
     assumptions=["the loop consults has_pdu_to_send()/until_timeout() before every iteration (lib.rs select! guards), as modelled in Model/Loop.lean"],
-    unproved=["after resume the transfer completes exactly as an unsuspended one (liveness, = C02)"],
+    unproved=["that the retransmissions which make a resumed transfer complete happen within the limits is the liveness half of C02 (oracle); that suspensions do not change the outcome once everything is delivered is C19_completes_despite_suspensions"],
 )
 
 PROPS["C20"] = dict(
@@ -587,5 +587,5 @@ PROPS["C02"] = dict(
           "per-side steps. Non-trivial = a routing line with at least one delivered PDU / a PDU emitted."
           " net engine (300 quick / 3000 thorough two-party histories): one real SendTransaction and one real RecvTransaction joined by a simulated link that delivers only PDUs the other side emitted (in order, lost, duplicated, reordered, as stragglers), random schedules of transmissions, deliveries, timer expiries and user requests at both sides, then a loss-free fair phase on the shared virtual clock until both have ended; every call is answered in lockstep by the Lean sender and receiver models (ops net s / net r), the per-side oracles of the send / recv engines keep running, and two-party oracles are added: C02 recovers / same_outcome (acknowledged mode, losses confined to a zero-time phase, default handlers: both sides report success), C03 net_bounded / net_never_stuck, C04 sender_success_only_after_receiver, C01 two_party_file."),
     assumptions=["bounded faults: fewer than `limit` faults per transfer, delays below the timers (as the property states)"],
-    unproved=["the two-party liveness composition (see level text): checked dynamically, not proved"],
+    unproved=["the liveness half: that the timers bring the deliveries about within the limits under bounded loss (checked dynamically by the daemon and net engines); the other half - delivery implies completion, at the receiver and in the two-party model - is proved"],
 )
